@@ -15,6 +15,7 @@ import (
 	"net"
 	"os"
 	"path/filepath"
+	"runtime"
 	"runtime/debug"
 	"sort"
 	"strings"
@@ -118,10 +119,8 @@ func runE2E(in *bufio.Scanner, w *bufio.Writer) {
 			if !active {
 				continue
 			}
-			for i := 0; i < 4000 && (processor == nil || processor.CurrentFrame < valid); i++ {
-				time.Sleep(500 * time.Microsecond)
-			}
-			time.Sleep(2 * time.Millisecond)
+			// wait until the frame loop has processed everything sent so far and is blocked reading the socket
+			vWaitQuiescent(func() bool { return processor != nil && processor.CurrentFrame >= valid })
 			if err := newSnapshotRecording(); err != nil {
 				fmt.Fprintln(w, "< testreq error")
 			}
@@ -157,6 +156,23 @@ func runE2E(in *bufio.Scanner, w *bufio.Writer) {
 			vDumpDir(w, out, "main")
 			vDumpDir(w, filepath.Join(out, "constant-recordings"), "const")
 		}
+	}
+}
+
+// vWaitQuiescent polls until cond holds and the goroutine running handleConn is parked in the pipe read
+// (so no frame is being processed): the request that follows takes effect exactly at the next frame.
+func vWaitQuiescent(cond func() bool) {
+	buf := make([]byte, 1<<20)
+	for i := 0; i < 20000; i++ {
+		if cond() {
+			n := runtime.Stack(buf, true)
+			for _, g := range strings.Split(string(buf[:n]), "\n\n") {
+				if strings.Contains(g, "main.handleConn(") && strings.Contains(g, "net.(*pipe).read") {
+					return
+				}
+			}
+		}
+		time.Sleep(200 * time.Microsecond)
 	}
 }
 
